@@ -13,7 +13,7 @@ import json,sys,re
 m=json.load(open('$d/meta.json'))
 s=set(re.sub(r'\(.*','',x) for x in m.get('detected_by',[]))
 s.discard('$prop'); print(' '.join(sorted(s)))")
-  out=$(tools/mutant.sh "$d/patch.diff" "$prop $extra" 2>&1)
+  out=$(tools/mutant.sh "/verif/$d/patch.diff" "$prop $extra" 2>&1)
   by=$(echo "$out" | grep '^check ' | grep 'rc=1' | sed 's/^check \([A-Z0-9]*\):.*/\1/' | tr '\n' ' ')
   if echo "$out" | grep -q "PATCH FAILED"; then echo "$id PATCH-FAILED"; elif [ -n "$by" ]; then echo "$id caught-by: $by"; else echo "$id MISSED :: $(echo "$out" | grep '^check ' | cut -c1-120 | tr '\n' ' ')"; fi
 }
